@@ -88,7 +88,7 @@ def o_c08(cimp, ctx):
         if o == O["SUCCESS"]:
             if starts.count(t) != 1:
                 probs.append((f"task {t} reported SUCCESS but its function ran {starts.count(t)} times", ()))
-            miss = [p for p in tk["prods"] if p not in files]
+            miss = [p for p in tk["prods"] if p not in files and not 300 <= p < 400]      # 300-399: handed over in memory
             if miss:
                 probs.append((f"task {t} reported SUCCESS but products {miss} do not exist", ()))
         if o in NONRUN and t in starts:
@@ -96,7 +96,8 @@ def o_c08(cimp, ctx):
         f = faults.get(str(t))
         if o == O["FAIL"]:
             before = ctx["raw"]["files_before"]
-            missing_dep = any(str(d) not in before and d not in files for d in tk["deps"]) or any(d not in files for d in tk["deps"])
+            fdeps = [d for d in tk["deps"] if not 300 <= d < 400]
+            missing_dep = any(str(d) not in before and d not in files for d in fdeps) or any(d not in files for d in fdeps)
             after_miss = False
             for ui in after_targets(tk, list(tasks.values())):
                 after_miss |= any(p not in files for p in tasks[ui]["prods"])
